@@ -15,4 +15,6 @@ def run(ctx):
     ctx.proof_phase(extra_targets=['Corr/Check_Deploy.vo'])
     ds.run_cli_stream(ctx, 14 if quick else 200, 4 if quick else 8, props={'C01'})
     ds.run_cli_stream(ctx, 8 if quick else 120, 2, props={'C01'}, stream='partly_managed', script=ds.script_partial_manifest)
+    ds.run_hist_stream(ctx, 6 if quick else 80, 8, props={'C01'}, weights={'deploy': 1}, stream='after_empty_rollback',
+                       plan_script=ds.hist_after_empty_rollback, setup=ds.setup_two_roots)
     ds.run_lib_stream(ctx, 80 if quick else 1500, props={'C01'})
